@@ -77,6 +77,30 @@ theorem backoff_band (o : Opts) (hv : Valid o) (n : Nat) (u : Rat) (hu0 : 0 ≤ 
     bandLo o n ≤ retryInExact o n u ∧ retryInExact o n u < bandHi o n :=
   retryInExact_band o hv n u hu0 hu1
 
+/-- with a multiplier of at least 1 the nominal back-off never shrinks from one attempt to the next … -/
+theorem backoff_monotone (o : Opts) (hv : Valid o) (hm : 1 ≤ o.mult) (n : Nat) :
+    backoff o n ≤ backoff o (n + 1) := by
+  have h0 : 0 ≤ o.mult ^ n := Rat.pow_nonneg hv.mult
+  have hp : o.mult ^ n ≤ o.mult ^ (n + 1) := by
+    rw [Rat.pow_succ]
+    have : o.mult ^ n * 1 ≤ o.mult ^ n * o.mult := Rat.mul_le_mul_of_nonneg_left hm h0
+    grind
+  have h1 : o.initial * o.mult ^ n ≤ o.initial * o.mult ^ (n + 1) :=
+    Rat.mul_le_mul_of_nonneg_left hp hv.initial
+  simp only [backoff]
+  split <;> split <;> grind
+
+/-- … and whatever the attempt number and the draw, no wait reaches `Max·(1 + r) + 1 ns`: the cap of the property
+holds for the whole unbounded sequence of attempts, not just until the product first exceeds `Max`. -/
+theorem delay_below_cap (o : Opts) (hv : Valid o) (n : Nat) (u : Rat) (hu0 : 0 ≤ u) (hu1 : u < 1) :
+    retryInExact o n u < o.maxB + o.rand * o.maxB + 1 := by
+  have hb := (retryInExact_band o hv n u hu0 hu1).2
+  have hle := backoff_le_max o n
+  rw [backoff_eq_spec] at hle
+  have : o.rand * specBackoff o n ≤ o.rand * o.maxB := Rat.mul_le_mul_of_nonneg_left hle hv.rand
+  simp only [bandHi] at hb
+  grind
+
 /-- **lower_edge**: in whole nanoseconds (what `time.After` gets), never below the lower edge
 rounded down to a whole ns, never at or above the upper edge, for `r ≤ 1`. -/
 theorem lower_edge (o : Opts) (hv : Valid o) (hr1 : o.rand ≤ 1) (n : Nat) (u : Rat)
